@@ -77,7 +77,10 @@ class G:
             if not required and r.random() < 0.5:
                 continue
             if base in self.inputs:
-                if depth > 1 or base == tname:
+                order = list(self.inputs)
+                # nested object literals only towards strictly later types: a literal that mentions an earlier
+                # type (or its own) makes the default chain cyclic (graphql-core cannot resolve the fields)
+                if depth > 1 or order.index(base) <= order.index(tname):
                     if required:
                         return None
                     continue
@@ -281,28 +284,95 @@ class G:
         return "\n\n".join(out) + "\n", "\n".join(ops) + "\n"
 
 
+def default_cycle(sdl: str):
+    """Static check, no schema build: does resolving the fields of some input type need (through default literals
+    that contain object values) the fields of the same type again?  Returns the offending type name or None.
+    graphql-core resolves input fields lazily and coerces defaults while doing so; a cyclic chain ends in a
+    RecursionError that is swallowed or raised depending on the stack depth, so it must be excluded up front."""
+    from graphql import (InputObjectTypeDefinitionNode, ListTypeNode, ListValueNode, NamedTypeNode, NonNullTypeNode,
+                         ObjectValueNode)
+
+    doc = parse(sdl)
+    inputs = {d.name.value: d for d in doc.definitions if isinstance(d, InputObjectTypeDefinitionNode)}
+
+    def needs(tnode, vnode, acc):
+        if isinstance(tnode, NonNullTypeNode):
+            return needs(tnode.type, vnode, acc)
+        if isinstance(tnode, ListTypeNode):
+            if isinstance(vnode, ListValueNode):
+                for x in vnode.values:
+                    needs(tnode.type, x, acc)
+            else:
+                needs(tnode.type, vnode, acc)
+            return
+        if isinstance(tnode, NamedTypeNode) and tnode.name.value in inputs and isinstance(vnode, ObjectValueNode):
+            acc.add(tnode.name.value)
+            ftypes = {f.name.value: f.type for f in inputs[tnode.name.value].fields}
+            for of in vnode.fields:
+                if of.name.value in ftypes:
+                    needs(ftypes[of.name.value], of.value, acc)
+
+    edges = {}
+    for n, d in inputs.items():
+        acc = set()
+        for f in d.fields:
+            if f.default_value is not None:
+                needs(f.type, f.default_value, acc)
+        edges[n] = acc
+    state = {}
+
+    def dfs(n):
+        if state.get(n) == 1:
+            return n
+        if state.get(n) == 2:
+            return None
+        state[n] = 1
+        for m in edges[n]:
+            r = dfs(m)
+            if r:
+                return r
+        state[n] = 2
+        return None
+
+    for n in edges:
+        r = dfs(n)
+        if r:
+            return r
+    return None
+
+
+def valid_sdl(sdl: str) -> bool:
+    """build + assert_valid_schema + every input default coerces; never raises"""
+    from graphql import GraphQLInputObjectType, Undefined, assert_valid_schema, value_from_ast
+
+    try:
+        if default_cycle(sdl):
+            return False
+        gs = build_schema(sdl)
+        assert_valid_schema(gs)
+        for t in gs.type_map.values():
+            if isinstance(t, GraphQLInputObjectType):
+                for f in t.fields.values():
+                    if f.ast_node.default_value is not None and (
+                            f.default_value is Undefined
+                            or value_from_ast(f.ast_node.default_value, f.type) is Undefined):
+                        return False
+        return True
+    except BaseException as exc:  # noqa  (RecursionError included)
+        if isinstance(exc, (KeyboardInterrupt, SystemExit)):
+            raise
+        return False
+
+
 def make(seed: int, features=(), tries: int = 30) -> scenario.Scenario:
     for k in range(tries):
         g = G(seed * 1000 + k, features)
         try:
             sdl, ops = g.make_sdl()
-            gs = build_schema(sdl)
-            if validate(gs, parse(ops), specified_rules):
+            if not valid_sdl(sdl):
                 continue
-            # every default must be a valid literal for its type (value_from_ast succeeds)
-            from graphql import GraphQLInputObjectType, Undefined, value_from_ast
-
-            bad = False
-            for t in gs.type_map.values():
-                if isinstance(t, GraphQLInputObjectType):
-                    for f in t.fields.values():
-                        if f.ast_node.default_value is not None and \
-                                value_from_ast(f.ast_node.default_value, f.type) is Undefined:
-                            bad = True
-            if bad:
+            if validate(build_schema(sdl), parse(ops), specified_rules):
                 continue
-        except RecursionError:
-            continue
         except Exception:
             continue
         r = g.rng
